@@ -815,11 +815,11 @@ def run_models(cases, impl, strict=False):
 
 
 PARTIAL = [
-    "NJ consistency is now PROVED for every binary tree metric with positive branch lengths (weighted split system: "
-    "nj_score_minimiser_is_cherry, nj_consistency, nj_consistency_on_trees).  Not formalised: that the inductive "
-    "construction star / replace-a-tip-by-a-cherry / relabel enumerates every leaf-labelled binary tree (every binary tree "
-    "with >= 4 tips has a cherry), that a tree is determined by its path metric, and polytomies (the returned tree then "
-    "has zero-length edges).  gnj with keep > 1 and numpy's argsort tie order are outside the model (every minimiser is "
+    "NJ consistency is now PROVED: for every leaf-labelled binary tree (datatype btree) with positive branch lengths on "
+    "n >= 3 tips nj returns a tree whose tip-to-tip path lengths are the generating tree's (nj_consistency_on_binary_trees; "
+    "via nj_score_minimiser_is_cherry on weighted split systems).  Not formalised: that a tree with positive lengths is "
+    "determined by its path metric (so 'same distances' = 'same tree'), and polytomies (the returned tree then has "
+    "zero-length edges).  gnj with keep > 1 and numpy's argsort tie order are outside the model (every minimiser is "
     "proved to be a cherry, so the tie order cannot matter on tree metrics); real runs are additionally TESTED exhaustively "
     "over all labelled topologies up to the tier's size",
     "the duplicate shortcut of _PairwiseDistance.run: refuted for the pinned text (prefix_duplicate_shortcut_refuted), proved exact "
